@@ -121,16 +121,17 @@ def coq_atoms(out):
                            for t, bs, ns in atoms_of_out(out)) + "]"
 
 
-def coq_msg(f):
+def coq_msg(f, idx):
+    """every A/U/D op of the harness builds a fresh message with its own ConfirmMeta object, ExpectedConfirms = 1"""
     ctag = "None" if f[3] == "-" else "Some %s" % f[3]
-    return "{| m_id := %s; m_data := %s; m_ctag := %s |}" % (f[1], f[2], ctag)
+    return "{| m_id := %s; m_data := %s; m_ctag := %s; m_meta := %d; m_expected := 1 |}" % (f[1], f[2], ctag, idx)
 
 
-def coq_msg_op(op):
+def coq_msg_op(op, idx=0):
     f = op.split(":")
     t = f[0]
     if t in ("A", "U", "D"):
-        return "RL (%s %s %s)" % ({"A": "MAdd", "U": "MUpdate", "D": "MDel"}[t], coq_msg(f), coq_bytes(f[4]))
+        return "RL (%s %s %s)" % ({"A": "MAdd", "U": "MUpdate", "D": "MDel"}[t], coq_msg(f, idx), coq_bytes(f[4]))
     if t == "P":
         return "RL (MPurge %s)" % coq_bytes(f[1])
     if t == "F":
@@ -185,7 +186,7 @@ def coq_case(c):
     if c.mode == "srv":
         return "([%s], %s)" % ("; ".join(coq_srv_op(o) for o in c.ops), outs)
     eng = "Bunt" if c.engine == "bunt" else "Badger"
-    return "(%s, %s, [%s], %s)" % (eng, cb(c.confirm), "; ".join(coq_msg_op(o) for o in c.ops), outs)
+    return "(%s, %s, [%s], %s)" % (eng, cb(c.confirm), "; ".join(coq_msg_op(o, i) for i, o in enumerate(c.ops)), outs)
 
 
 def model_mismatches(cases, tag, chunk=150):
@@ -334,7 +335,8 @@ def judge_msg(c):
     order     : R:q:0 lists ids in increasing order when all of q's ids have the same decimal length (< 2^63)
     phantom   : everything R:q returns was Added/Updated for q with that content
     deleted   : a copy whose Del was requested before a persist that completed, and that was not added again, is not in the engine
-    not-early : a relay of key k is preceded by a completed batch that Sets k (C05 store clause)
+    not-early : a relay of key k is preceded by a completed batch that Sets k, or k was Added and Del-requested before the
+                snapshot of this or an earlier persist (the add was cancelled: the message was already settled) (C05 store clause)
     Returns list of dict(pos, clause, what, triggers)."""
     fails = []
     names = msg_case_names(c)
@@ -342,6 +344,7 @@ def judge_msg(c):
     pending_w, inflight_w, purged_gone, f41 = set(), set(), set(), set()
     del_pending, del_flushed, swapped_dels = set(), set(), set()
     add_count, first_is_add = {}, {}
+    pending_a, pending_d, settled_ok = set(), set(), set()
     bunt = c.engine == "bunt"
 
     def trig(q):
@@ -364,6 +367,8 @@ def judge_msg(c):
             first_add.setdefault((q, mid), i)
             written.setdefault((q, mid), set()).add(data)
             pending_w.add((q, mid))
+            if t == "A":
+                pending_a.add((q, mid))
             purged_gone.discard((q, mid))
             del_pending.discard((q, mid))
             del_flushed.discard((q, mid))
@@ -371,18 +376,28 @@ def judge_msg(c):
         elif t == "D":
             del_req.add((unhex(f[4]), int(f[1])))
             del_pending.add((unhex(f[4]), int(f[1])))
+            pending_d.add((unhex(f[4]), int(f[1])))
         elif t == "K" or out == "PANIC":
+            pending_a.clear()
+            pending_d.clear()
             del_pending.clear()
             swapped_dels.clear()
             pending_w.clear()
             inflight_w.clear()
         elif t == "T":
+            # snapshot: adds cancelled by a del of the same key are 'settled' - they may be relayed without a Set
+            settled_ok |= {doc_msg_key(*o).hex() for o in pending_a & pending_d}
+            pending_a.clear()
+            pending_d.clear()
             del_flushed |= del_pending | swapped_dels
             del_pending.clear()
             swapped_dels.clear()
             pending_w.clear()
             inflight_w.clear()
         elif t == "S":
+            settled_ok |= {doc_msg_key(*o).hex() for o in pending_a & pending_d}
+            pending_a.clear()
+            pending_d.clear()
             swapped_dels |= del_pending
             del_pending.clear()
             inflight_w |= pending_w
@@ -405,8 +420,8 @@ def judge_msg(c):
                 set_done.add(a[1][0])
             elif a[0] == 3:
                 k = a[1][0]
-                if k not in set_done:
-                    fails.append(dict(pos=i, clause="not-early", what="relay of key %r before any completed batch set it" % unhex(k), triggers=[]))
+                if k not in set_done and k not in settled_ok:
+                    fails.append(dict(pos=i, clause="not-early", what="relay of key %r although no completed batch has set it and its add was not cancelled by a del before the snapshot of this or an earlier persist" % unhex(k), triggers=[]))
                 owners = [(q, mid) for (q, mid) in first_add if doc_msg_key(q, mid).hex() == k]
                 if not owners:
                     fails.append(dict(pos=i, clause="phantom", what="relay of key %r which is not msg.<queue>.<id> of any Added copy" % unhex(k), triggers=[]))
